@@ -365,6 +365,7 @@ func (x *Exec) addReplayValues(q *Query, pre Heap, cpu *PtrV) {
 					if d, ok := iv.F[1].(*SliceV); ok && d.Obj != nil {
 						q.Values = append(q.Values, NamedTerm{"intr:Len", d.Len})
 						q.Values = append(q.Values, NamedTerm{"intr:Cap", d.Cap})
+						q.Prefer = append(q.Prefer, b.Not(b.Cmp("bvult", b.Const(64, 8), d.Len)))
 						arr := x.getPath(pre[d.Obj], d.Path).(*Term)
 						for k := 0; k < 8; k++ {
 							q.Values = append(q.Values, NamedTerm{fmt.Sprintf("intr:Data:%d", k), b.Select(arr, b.Bin("bvadd", d.Off, b.Const(64, uint64(k))))})
